@@ -227,6 +227,33 @@ CHECKS["C06"] = dict(
     technique="Coq proof of the optimisations' side conditions + differential parsing that validates them per run", design_ref="§10",
 )
 
+CHECKS["C07"] = dict(
+    category="proof",
+    text=("Coq theorem C07_constructor_enforces_tiling proves, for every templater at once, that a TemplatedFile accepted by the constructor's own "
+          "checks has raw slices tiling the source and rendered slices tiling the rendered SQL, in order; C07_tracer_templated_tiles / "
+          "C07_tracer_source_slices_are_raw_slices prove the Jinja tracer's bookkeeping for every trace (any call sequence): recorded rendered "
+          "slices are contiguous from 0 and every source slice is exactly one raw slice. Models tied by correspondence with the real "
+          "TemplatedFile.__init__ (outcome class on random valid/invalid slice lists) and JinjaTracer.record_trace. PARTIAL: Jinja, the "
+          "analyzer, the python slicer and the variant rectifier are not modelled; 'source slices within the file' and 'literal slices map to "
+          "identical text' are checked on every variant the real jinja / python / placeholder templaters produce for generated sources "
+          "(finding F3 in the rectifier was found this way and repaired). Placeholder slice construction is proved under C09."),
+    note=("Trusted: Coq kernel, hand model Model/TemplatedFile.v, harness/lexcheck.py check_tf. No axioms."),
+    technique="Coq proof of constructor-enforced tiling and tracer bookkeeping + correspondence + per-variant source-map monitor", design_ref="§11",
+)
+CHECKS["C08"] = dict(
+    category="proof",
+    text=("PARTIAL (Jinja is an oracle). Coq theorems C08_fast_path_sound / C08_fast_path_exact: a text without `{{`, `{%`, `{#` is one data token "
+          "of Jinja's root lexer state and renders to itself, and any marker ends the data token, so the fast-path test is exact; "
+          "C08_newlines_normalised: render_string's newline normalisation yields CR-free text, is the identity on CR-free text and idempotent. "
+          "Model tied by exhaustive correspondence with the templater's regex and Linter._normalise_newlines (and a source check that the "
+          "regex is still the modelled one). Fidelity itself is validated against the real Jinja: primary rendering vs "
+          "env.from_string(source, globals=context).render() with sqlfluff's own environment and context (incl. its undefined-variable stubs) "
+          "for generated templates x contexts, marker-free files with lone braces, CR/CRLF, trailing newlines, whitespace control, undefined "
+          "variables with/without ignore=templating."),
+    note=("Trusted: Coq kernel, hand model Model/JinjaFast.v, Jinja2 as arbiter. No axioms."),
+    technique="Coq proof of the fast-path condition + differential rendering against Jinja (translation validation)", design_ref="§12",
+)
+
 NOT_YET = "no check built yet in this round (planned: see DESIGN.md section for this property)"
 
 
